@@ -529,6 +529,11 @@ class MembraneTx:
             test, body, orelse = st.test, st.body, st.orelse
             while isinstance(test, ast.UnaryOp) and isinstance(test.op, ast.Not):
                 test, body, orelse = test.operand, orelse, body
+            # one spelling per comparison: `if a < b: X else: Y` is emitted as `if a >= b: Y else: X` (likewise `<=`)
+            if isinstance(test, ast.Compare) and len(test.ops) == 1 and isinstance(test.ops[0], (ast.Lt, ast.LtE)):
+                flipped = ast.GtE() if isinstance(test.ops[0], ast.Lt) else ast.Gt()
+                test = ast.copy_location(ast.Compare(left=test.left, ops=[flipped], comparators=test.comparators), test)
+                body, orelse = orelse, body
             # the hook: `if self.on_threat: self.on_threat(result)`
             if is_self(test, "on_threat") and not orelse and len(body) == 1 and isinstance(body[0], ast.Expr) \
                     and isinstance(body[0].value, ast.Call) and is_self(body[0].value.func, "on_threat") \
@@ -546,6 +551,9 @@ class MembraneTx:
                 rl = self.fresh("rl")
                 env2 = dict(env)
                 env2["self.rate_limit"] = V("nat", rl)
+                for k2, v2 in env.items():      # locals that hold a copy of the limit are known to be that number too
+                    if getattr(v2, "kind", None) == "onat" and v2.lean == c.lean:
+                        env2[k2] = V("nat", rl)
                 a, b = (orelse, body) if c.neg else (body, orelse)
                 return (f"{pad}match {cur}.rateLimit with\n{pad}| none =>\n"
                         + self.run(a + more, env, cur, ghost, ret, depth + 1, stack)
@@ -1027,9 +1035,13 @@ def rate_program(tree):
 
     prog = []
     tx = MembraneTx(tree)
+    limit_names = set()                   # locals holding a copy of self.rate_limit
+
+    def is_limit(n):
+        return is_self(n, "rate_limit") or (isinstance(n, ast.Name) and n.id in limit_names)
 
     def mentions_limit(node):
-        return any(is_self(n, "rate_limit") for n in ast.walk(node))
+        return any(is_limit(n) for n in ast.walk(node))
 
     def walk(stmts, locked, depth, top):
         """returns True when every path through `stmts` ends in a return"""
@@ -1052,7 +1064,7 @@ def rate_program(tree):
             if isinstance(st, ast.If):
                 test, body, orelse = st.test, st.body, st.orelse
                 is_none = isinstance(test, ast.Compare) and len(test.ops) == 1 and isinstance(test.ops[0], ast.Is) \
-                    and is_self(test.left, "rate_limit") and isinstance(test.comparators[0], ast.Constant) \
+                    and is_limit(test.left) and isinstance(test.comparators[0], ast.Constant) \
                     and test.comparators[0].value is None
                 real = [x for x in body if not tx.is_noop(x)]
                 ret = real[0] if len(real) == 1 and isinstance(real[0], ast.Return) else None
@@ -1066,6 +1078,16 @@ def rate_program(tree):
                         bad(st, "window test through a helper")
                     prog.append("testShared")
                     continue
+                # the same test written admitted-path-first: `if <window has room>: record; return False` / `return True`
+                rest = [x for x in stmts[k + 1:] if not tx.is_noop(x)]
+                if reads_shared(test) and mentions_limit(test) and not orelse and len(rest) == 1 \
+                        and isinstance(rest[0], ast.Return) and isinstance(rest[0].value, ast.Constant) \
+                        and rest[0].value.value is True \
+                        and not any(isinstance(n, ast.Call) and is_self(n.func) for n in ast.walk(test)):
+                    prog.append("testShared")
+                    if not walk(body, locked, depth, False):
+                        bad(st, "the admitted path does not return")
+                    return True
                 bad(st, f"if-statement {ast.unparse(test)[:40]}")
             if isinstance(st, ast.Return):
                 if isinstance(st.value, ast.Constant) and st.value.value is False:
@@ -1091,6 +1113,8 @@ def rate_program(tree):
                     continue
                 if reads_shared(v):
                     bad(st, "the shared window is read into a local (snapshot)")
+                if isinstance(tg, ast.Name) and is_limit(v):
+                    limit_names.add(tg.id)
                 continue                      # pure local
             if isinstance(st, ast.Expr) and isinstance(st.value, ast.Call):
                 c = st.value
